@@ -34,7 +34,7 @@ type Config struct {
 	PanicsEverywhere bool
 }
 
-var gCfg = Config{Repo: "/repo", Module: "github.com/ah-naf/borno", Verif: "/verif", Z3: "z3", QueryTimeoutS: 60, ModelsPerSite: 2, MaxCallDepth: 400, Workers: runtime.NumCPU()}
+var gCfg = Config{Repo: "/repo", Module: "github.com/ah-naf/borno", Verif: "/verif", Z3: "z3", QueryTimeoutS: 60, ModelsPerSite: 2, MaxCallDepth: 400, Workers: runtime.NumCPU(), PanicsEverywhere: true}
 
 // harnessOverlay instantiates the harness sources of /verif/harness into the repo's packages
 // (in memory only; nothing is written into the repo).
